@@ -64,8 +64,9 @@ arr_real FIRRateConverter::process(const arr_real& in) {
 }
 
 int FIRRateConverter::delay() const noexcept {
-    //TODO: must be N/2
-    return sublen_ / 2 + 1;
+    //group delay of the (sublen * interp)-tap filter at the high rate, minus the decimation phase, in output samples
+    const int num = (sublen_ * interp_ - 1) - 2 * (decim_ - 1);
+    return (num + decim_) / (2 * decim_);
 }
 
 int FIRRateConverter::interp_rate() const noexcept {
